@@ -9,6 +9,8 @@ for c in $(git rev-list --reverse main..fix-$n); do
 done
 git log --oneline -8 | cat
 cd /verif || exit 1
+# a dirty tree (evidence rewritten by checks, regenerated files) would make the merge refuse: commit it first
+git add -A; git commit -qm "wip before merging b-$n" -q 2>/dev/null
 if ! git merge --no-edit b-$n >/tmp/merge.log 2>&1; then
   # evidence files are rewritten by every run: on conflict take the builder's, the next check run refreshes them
   for f in $(git diff --name-only --diff-filter=U); do
